@@ -4,6 +4,7 @@ line on stdout.  Rejects what it cannot parse with `bad-op`; never defaults.  `#
 -/
 import SmppVerif.Model.Wire
 import SmppVerif.Model.Gsm
+import SmppVerif.Model.Packed
 
 namespace SmppVerif.Driver
 open SmppVerif SmppVerif.Wire
@@ -22,6 +23,22 @@ def step (line : String) : String :=
   | ["gsm.is", t] =>
     match parseNats t with
     | some t => if Gsm.isGsmText t then "ok 1" else "ok 0"
+    | _ => "bad-op"
+  | ["pk.enc", m, t] =>
+    match parseMode m, parseNats t with
+    | some m, some t => resHex (Packed.encode m t)
+    | _, _ => "bad-op"
+  | ["pk.dec", m, b] =>
+    match parseMode m, parseHex b with
+    | some m, some b => resNats (Packed.decode m b)
+    | _, _ => "bad-op"
+  | ["pk.pack", c] =>
+    match parseNats c with
+    | some c => resHex (Packed.packCodes c)
+    | _ => "bad-op"
+  | ["pk.unpack", b] =>
+    match parseHex b with
+    | some b => "ok " ++ showNats (Packed.unpack b)
     | _ => "bad-op"
   | _ => "bad-op"
 
